@@ -180,6 +180,16 @@ func do(s *shared, op *vm.Op) (out string) {
 		}
 		b, _ := nt.Serialize()
 		return fmt.Sprintf("ok %x", b)
+	case "append_default_rng":
+		// the library picks its own randomness (nil reader): the result is random, only its
+		// class is compared with the solo run; what matters here is the race detector
+		bb := s.tok.CreateBlock()
+		bb.AddBlock(s.parsedBlk)
+		nt, err := s.tok.Append(nil, bb.Build())
+		if err != nil {
+			return errc(err)
+		}
+		return fmt.Sprintf("ok %d blocks", nt.BlockCount())
 	case "seal":
 		nt, err := s.tok.Seal(vm.NewSimRand(&vm.Entropy{}))
 		if err != nil {
